@@ -83,6 +83,35 @@ def run(ctx):
                what="%s hashes the bit pattern of its float but its Eq compares floats with `==`: 0.0 == -0.0 (and all NaNs are equal) "
                     "while their hashes differ" % nm, where=e.loc(floateq[0] if floateq else None))
     ctx.floor("R2", n2, 2, "wrappers hashing float bits")
+    # ---- R2b order vs equality of a float wrapper: an Eq that compares the float values (`==`: 0.0 and -0.0 are one
+    # key, and with an is_nan test all NaNs are one key) needs an Ord that compares values too; an order over the bit
+    # pattern (total_cmp, to_bits) separates keys that Eq and Hash merge - and the other way round.
+    n2b = 0
+    for nm, (h, e) in wrappers.items():
+        c = P.method("types::value::" + nm, "Ord", "cmp", required=False)
+        if c is None:
+            continue
+        def floatops(fn, ops):
+            return [st[2] for g in P.family(fn) for b in g.blocks if not b["cl"] for st in b["s"]
+                    if st[1][0] == "bin" and st[1][1] in ops and st[1][4] in ("f64", "f32")]
+        def calls(fn, names):
+            return [callee_name(t) for g in P.family(fn) for bi, t in g.calls() if callee_name(t).split("::")[-1] in names]
+        eq_value = bool(floatops(e, ("Eq", "Ne")))
+        eq_bits = bool(calls(e, ("to_bits",)))
+        if not (eq_value or eq_bits):
+            continue      # no float compared directly in this wrapper's Eq (it delegates to another wrapper)
+        n2b += 1
+        cmp_bits = bool(calls(c, ("total_cmp", "to_bits")))
+        cmp_value = bool(calls(c, ("partial_cmp",))) or bool(floatops(c, ("Lt", "Le", "Gt", "Ge", "Eq", "Ne")))
+        eq_nan = bool(calls(e, ("is_nan",)))
+        cmp_nan = bool(calls(c, ("is_nan",)))
+        ok = not (eq_value and cmp_bits) and not (eq_bits and not eq_value and cmp_value and not cmp_bits) and (not eq_nan or cmp_nan or (eq_bits and cmp_bits))
+        ctx.ob("R2b", "%s#ord-vs-eq" % nm, ok,
+               what="%s: Eq compares %s%s but Ord::cmp orders by %s%s: values that are equal (0.0 / -0.0, NaNs) are ordered apart, or "
+                    "ordered-equal values are unequal; an ordered index or a sort separates equal keys"
+                    % (nm, "float values" if eq_value else "bit patterns", " (NaN == NaN)" if eq_nan else "",
+                       "bit pattern" if cmp_bits else "value", "" if cmp_nan else ", without a NaN case"), where=c.loc())
+    ctx.floor("R2b", n2b, 1, "float wrappers with both Eq and Ord")
     # ---- R3 Ord vs Eq special pairs (orderable)
     oc = P.method("types::value::OrderableValue", "Ord", "cmp")
     oe = wrappers["OrderableValue"][1]
